@@ -7,6 +7,21 @@ def nt_bin(header, lines):
             and any(l.startswith("obs error") for l in lines))
 
 
+def nt_json(header, lines):
+    # ... and a document the reader is obliged to understand (dec-must) with an optional member left out
+    # (no trace_context in a cancellation / no deadline in a request), answered with a message
+    def omitted(l):
+        t = l.split()
+        if t[:3] != ["op", "dec-must", "cm"] or len(t) < 4:
+            return False
+        try:
+            doc = bytes.fromhex(t[3])
+        except ValueError:
+            return False
+        return (b'"Cancel"' in doc and b'"trace_context"' not in doc) or (b'"Request"' in doc and b'"deadline"' not in doc)
+    return nt_bin(header, lines) and any(omitted(l) for l in lines)
+
+
 def nt_frame(header, lines):
     frames = sum(1 for l in lines if l.startswith("obs frame"))
     mid = False
@@ -26,15 +41,20 @@ FAMILIES = [
                  rule="scripts 0,1 = fixed boundary suite (boundary ids, every stable io::ErrorKind, length-prefix edges, "
                       "non-canonical varints, reader errors); rest random enc/dec ops with str and u64 bodies; "
                       "non-trivial = contains a round trip of an error response, a decode to a message and a decode error"),
-    trace.Family("c15json", ["--scripts=400", "--len=40"], ["--scripts=20000", "--len=40"], nontrivial=nt_bin,
+    trace.Family("c15json", ["--scripts=400", "--len=40"], ["--scripts=20000", "--len=40"], nontrivial=nt_json,
                  rule="script 0 = fixed suite (boundary ids, every stable io::ErrorKind, every ASCII byte in a body, long strings, "
                       "hand-written documents for each reader rule incl. those of the Lean examples); rest random: enc of messages "
                       "with escape-heavy/unicode bodies, dec of real encodings, of hand-assembled documents (member order, whitespace, "
                       "omitted defaulted members, unknown members with arbitrary values incl. floats / non-Unicode strings / nesting "
                       "> 128, \\u escapes and surrogate pairs, structs as arrays, unit variant as map; missing / repeated members, "
                       "wrong types, out-of-range and non-integer numbers, bad variants, non-UTF-8), of byte-level mutations of both, "
-                      "of the other type's documents and of random bytes; non-trivial = contains a round trip of an error response, "
-                      "a decode to a message and a decode error"),
+                      "of the other type's documents and of random bytes; dec-must ops (fixed suite and ~12% of random ops): documents "
+                      "the property obliges the reader to understand, built from a random message with the real member names and "
+                      "value forms, where a cancellation's trace_context / a context's deadline is left out half of the time, the "
+                      "members of every object are shuffled half of the time and whitespace is put between tokens half of the time, "
+                      "together with the message the document stands for (defaults filled in) - the monitor rejects error / panic / "
+                      "another message; non-trivial = contains a round trip of an error response, a decode to a message, a decode "
+                      "error and a dec-must document with an optional member left out"),
     trace.Family("c15frame", ["--scripts=1000", "--len=40"], ["--scripts=20000", "--len=60"], nontrivial=nt_frame,
                  rule="real FramedRead<LengthDelimitedCodec> fed PRNG-chosen chunks (0- and 1-byte chunks, stutter Pendings, "
                       "cuts inside header/body, oversize lengths); non-trivial = >= 2 frames, a chunk ending mid-frame, and an eof/error"),
